@@ -150,6 +150,39 @@ func init() {
 				c08Compare(c, o, d)
 			},
 		},
+		{
+			// the reader exif2.NewIfdReader returns, called directly on an Exif block (as a
+			// container scanner calls it) with the caller's own reader: the block ends the stream,
+			// is cut short, or is followed by other bytes
+			Name: "ifd-direct", Weight: 1,
+			N: func(tier string, seed uint64) uint64 {
+				if tier == "thorough" {
+					return 400000
+				}
+				return 30000
+			},
+			Run: func(c *Ctx) {
+				g := c.L("gen")
+				rec := gen.DrawRecord(g, 300)
+				ly := gen.BuildTIFF(g, rec, gen.LayoutOpts{Foreign: g.Intn(4)})
+				data := ly.Encode(g.Bool()).Bytes
+				switch g.Intn(4) {
+				case 0:
+					data = append(append([]byte(nil), data...), gen.ScreenTIFF(g.Sub().Bytes(1+g.Intn(40)))...)
+				case 1:
+					data = data[:g.Intn(len(data)+1)]
+				}
+				o := &opCase{data: data, name: "tiff-block", e: harness.EntryByName([]string{"exif2.DecodeJPEGIfd", "exif2.DecodeIfd"}[g.Intn(2)]), trunc: -1}
+				o.spec.RK = c.L("cfg").Intn(harness.NumRK)
+				d := drawDelivery(c.L("dev:0"))
+				c.Inc("fault:short(" + []string{"whole", "const", "random", "dribble", "aligned"}[d.Piece] + "):configured")
+				c.Descf("%s delivery=%s", o, d)
+				if c.Describe && len(o.data) <= 600 {
+					c.Descf("hex=%x", o.data)
+				}
+				c08Compare(c, o, d)
+			},
+		},
 	}
 	Register(p)
 }
